@@ -713,8 +713,20 @@ def derived_state(repo, cls):
             if v is None:
                 continue
             v2 = astq.inline_locals(fn, v)
+            # a cache that validates its key: the store is guarded by a test relating self.D to a quantity derived from self.F,
+            # so D follows F by construction and is not stale with respect to F
+            keyed = set()
+            for outer in astq.enclosing_stmts(fn, st)[:-1]:
+                if isinstance(outer, ast.If):
+                    t2 = astq.inline_locals(fn, outer.test)
+                    for cmp_ in ast.walk(t2):
+                        # only an (in)equality between the stored key and the freshly derived key validates a cache
+                        if isinstance(cmp_, ast.Compare) and all(isinstance(o, (ast.Eq, ast.NotEq)) for o in cmp_.ops):
+                            names = {x.attr for x in ast.walk(cmp_) if astq.is_self_attr(x, selfname)}
+                            if attr in names:
+                                keyed |= names - {attr}
             for n in ast.walk(v2):
-                if astq.is_self_attr(n, selfname) and n.attr in fitted and n.attr != attr:
+                if astq.is_self_attr(n, selfname) and n.attr in fitted and n.attr != attr and n.attr not in keyed:
                     deps.setdefault((attr, n.attr), "%s:%s" % (k.module.relpath, st.lineno))
     out = []
     for (d, f), where in sorted(deps.items()):
